@@ -233,7 +233,22 @@ def oracle_conditional(rng):
     finally:
         sc.SETTINGS.clear()
         sc.SETTINGS.update(saved)
+    # the epigraph (non-compact) encoding of the dual cone describes the same cone: same dual value
+    try:
+        with warnings.catch_warnings():
+            warnings.simplefilter('ignore')
+            cl.compact_sage_duals(False)
+            try:
+                vals[('dual-epigraph', False)] = ss.sig_relaxation(f, X, form='dual').solve(verbose=False)
+            except RuntimeError as e:
+                vals[('dual-epigraph', False)] = ('error', ' '.join(str(e).split())[:80])
+    finally:
+        sc.SETTINGS.clear()
+        sc.SETTINGS.update(saved)
     desc = 'f=%s on X=%s' % ([([str(t) for t in a], str(c)) for a, c in rows], kind)
+    a_, b_ = vals[('dual', False)], vals[('dual-epigraph', False)]
+    if a_[0] == b_[0] == 'solved' and isinstance(a_[1], float) and isinstance(b_[1], float) and not close(a_[1], b_[1], 1e-4):
+        return 'dual bound %r with compact_dual=True but %r with compact_dual=False; %s' % (a_[1], b_[1], desc)
     for key, (st, val) in vals.items():
         if st == 'solved' and isinstance(val, float) and math.isfinite(val) and val > ub + 1e-4 * (1 + abs(ub)):
             return '%s bound %r (presolve_trivial_age_cones=%s) exceeds f at a point of X (%r); %s' % (key[0], val, key[1], ub, desc)
